@@ -125,6 +125,8 @@ func c05GoTypes() []reflect.Type {
 		reflect.TypeOf(map[string]int64(nil)), reflect.TypeOf(map[int]int64(nil)), reflect.TypeOf(map[string]int32(nil)),
 		reflect.TypeOf(inner{}), reflect.TypeOf(struct{}{}),
 		reflect.TypeOf((*any)(nil)).Elem(), reflect.TypeOf((chan int)(nil)), reflect.TypeOf((func())(nil)), reflect.TypeOf(unsafe.Pointer(nil)),
+		// the registered wrapper types: their builders accept some schemas and refuse the rest
+		rtTime, rtNullInt, rtNullBool, rtNullFloat, rtNullString, rtNullTime,
 	}
 }
 
@@ -211,6 +213,11 @@ func runC05(r *Run) {
 				}
 				nbuilt++
 				r.Count("built/" + sc.name)
+				if c15IsWrapper(bt) {
+					// build decision and layout only: what these decode (timestamps, validity flags) is C13/C18/C19's
+					r.Count("built-wrapper/" + sc.name)
+					continue
+				}
 				// layout of the wrapper struct and of the field type against the model
 				offs := make([]string, st.NumField())
 				for i := range offs {
@@ -491,4 +498,12 @@ func c05RowC() reflect.Type {
 		Narrow  int16 `json:"score"`
 	}
 	return reflect.TypeOf(row{})
+}
+
+func c15IsWrapper(t reflect.Type) bool {
+	switch t {
+	case rtTime, rtNullInt, rtNullBool, rtNullFloat, rtNullString, rtNullTime:
+		return true
+	}
+	return false
 }
